@@ -28,6 +28,8 @@ def run(ctx):
                       "`pathset`, the shadow set is cleared")
     ctx.rule("R13.3", "application loops: the shadow set is updated (remove / insert) exactly on the success edge of unwatch / watch; on failure every "
                       "produced RuntimeError is sent and the loop goes on with the next path; unwatching precedes watching")
+    ctx.rule("R13.7", "frame condition: the fs worker carries no state from one round to the next other than watcher, watcher_type, the shadow set "
+                      "and the change subscription (so nothing read from the configuration can go stale across rounds)")
     ctx.rule("R13.4", "an empty configured path set releases the watcher; WatchedPath.recursive selects RecursiveMode::Recursive / NonRecursive")
     ctx.rule("R13.5", "lock scope: in the watchexec crate no RwLock/Mutex guard is live across an await or a call through a user-supplied Fn")
     ctx.rule("R13.6", "every public Config setter replaces the value and then calls signal_change")
@@ -159,6 +161,28 @@ def run(ctx):
                             fail="after `%s` the record of registered paths is kept: the next diff against the configured set skips paths that the "
                                  "new/absent watcher does not actually watch" % what,
                             detail="first use at %s" % (w.loc(w.blocks[bad[0]].term.line) if bad else ""))
+        # ---- R13.7 frame condition: the only state carried from one round to the next is the modelled one
+        let_names = []
+        top = []
+        for blk in thir.find(thir.root(w), "block"):
+            items = list(blk.get("s", [])) + ([blk["e"]] if blk.get("e") is not None else [])
+            if any(isinstance(x, dict) and thir.peel(x).get("k") == "loop" and not thir.peel(x).get("x") for x in items):
+                top = blk.get("s", [])
+                break
+        for st in top:
+            if isinstance(st, dict) and st.get("k") == "let":
+                for n_ in thir.walk(st["p"]):
+                    if n_.get("k") == "bind":
+                        let_names.append(n_["n"])
+        KNOWN = {"watcher_type", "watcher", "pathset", "config_watch"}
+        extra = [n_ for n_ in let_names if n_ not in KNOWN]
+        ctx.require(set(let_names) >= KNOWN, "R13.7", "frame:known-state", "the worker keeps watcher_type, watcher, pathset and config_watch across rounds", w.loc(w.line),
+                    detail=str(let_names))
+        for n_ in extra:
+            ctx.incomplete("R13.7", "frame:unmodelled-state:" + n_,
+                           "the fs worker carries an additional variable `%s` from one round to the next; the convergence rules only model "
+                           "watcher / watcher_type / pathset (a cache of the configuration can go stale when a change lands in the middle of a round)" % n_,
+                           w.loc(w.line))
         # ---- R13.3 via THIR paths of the two apply loops
         root = thir.root(w)
         en = pathx.Enum(interesting=interesting)
@@ -230,6 +254,29 @@ def run(ctx):
         ctx.require(ok, "R13.4", "recursive-mode", "path.recursive selects Recursive, otherwise NonRecursive", w.loc(w.line),
                     fail="the recursion flag of a watched path is no longer mapped to RecursiveMode::Recursive / NonRecursive")
 
+    lock_scope(ctx, "R13.5")
+
+    # ---- R13.6 setters
+    try:
+        setters = [f for f in facts.fn_by_def.values() if f.self_ty == "watchexec::config::Config" and f.kind == "method" and not f.impl_trait
+                   and f.vis and "Public" in f.vis and f.def_.split("::")[-1] not in ("signal_change",)]
+        ctx.floor("R13.6", "public Config setters", len(setters), 8)
+        for f in sorted(setters, key=lambda f: f.def_):
+            ctx.saw_fn(f)
+            cfg = CFG(f)
+            rep = [bi for bi, t in f.calls() if t.callee.is_("Changeable::replace", "ChangeableFn::replace", "ChangeableFilterer::replace")]
+            sig = [bi for bi, t in f.calls() if t.callee.is_("Config::signal_change")]
+            rets = cfg.exits()
+            ok = len(rep) == 1 and len(sig) == 1 and cfg.dominates(rep[0], sig[0]) and all(cfg.must_pass(0, [r], sig) for r in rets)
+            name = f.def_.split("::")[-1]
+            ctx.require(ok, "R13.6", "setter:" + name, "Config::%s replaces the value and then signals the change on every path" % name, f.loc(f.line),
+                        fail="Config::%s does not (always) call signal_change after replacing the value: workers never learn about the new setting" % name)
+    except Skip:
+        pass
+
+
+def lock_scope(ctx, rule):
+    facts = ctx.facts
     # ---- R13.5 lock scope (whole crate)
     n_guards = 0
     for fn in facts.crate_fns(LIB):
@@ -256,38 +303,21 @@ def run(ctx):
                         bad.append(("await", t.line))
                     if t.kind == "call" and t.callee.is_("core::ops::function::Fn::call", "core::ops::function::FnMut::call_mut", "core::ops::function::FnOnce::call_once"):
                         bad.append(("callback", t.line))
-                ctx.require(not bad, "R13.5", "guard-scope:%s:_%d" % (fn.def_, g), "lock guard in %s is released before any await / user callback" % fn.def_.split("::")[-1],
+                ctx.require(not bad, rule, "guard-scope:%s:_%d" % (fn.def_, g), "lock guard in %s is released before any await / user callback" % fn.def_.split("::")[-1],
                             fn.loc(fn.blocks[d].term.line),
                             fail="%s holds a lock guard across %s: reconfiguring from inside a handler can deadlock" % (fn.def_, bad[:2]))
-    ctx.floor("R13.5", "lock guards analysed in the watchexec crate", n_guards, 2)
+    ctx.floor(rule, "lock guards analysed in the watchexec crate", n_guards, 2)
     # ChangeableFn::call clones the handler out before calling it
     try:
-        cc = ctx.anchor_fn("R13.5", "watchexec::changeable::ChangeableFn::<T, U>::call")
+        cc = ctx.anchor_fn(rule, "watchexec::changeable::ChangeableFn::<T, U>::call")
         calls = [(bi, t) for bi, t in cc.calls()]
         get = [bi for bi, t in calls if t.callee.is_("Changeable::get")]
         inv = [bi for bi, t in calls if t.callee.is_("core::ops::function::Fn::call")]
         direct = [t for _, t in calls if t.callee.is_("RwLock::read", "RwLock::write")]
         cfg = CFG(cc)
-        ctx.require(len(get) == 1 and len(inv) == 1 and cfg.dominates(get[0], inv[0]) and not direct, "R13.5", "handler-cloned-out",
+        ctx.require(len(get) == 1 and len(inv) == 1 and cfg.dominates(get[0], inv[0]) and not direct, rule, "handler-cloned-out",
                     "ChangeableFn::call clones the handler out of the lock (Changeable::get) and only then calls it", cc.loc(cc.line),
                     fail="ChangeableFn::call invokes the handler while holding the lock: replacing a handler from inside it deadlocks, or affects the call in progress")
     except Skip:
         pass
 
-    # ---- R13.6 setters
-    try:
-        setters = [f for f in facts.fn_by_def.values() if f.self_ty == "watchexec::config::Config" and f.kind == "method" and not f.impl_trait
-                   and f.vis and "Public" in f.vis and f.def_.split("::")[-1] not in ("signal_change",)]
-        ctx.floor("R13.6", "public Config setters", len(setters), 8)
-        for f in sorted(setters, key=lambda f: f.def_):
-            ctx.saw_fn(f)
-            cfg = CFG(f)
-            rep = [bi for bi, t in f.calls() if t.callee.is_("Changeable::replace", "ChangeableFn::replace", "ChangeableFilterer::replace")]
-            sig = [bi for bi, t in f.calls() if t.callee.is_("Config::signal_change")]
-            rets = cfg.exits()
-            ok = len(rep) == 1 and len(sig) == 1 and cfg.dominates(rep[0], sig[0]) and all(cfg.must_pass(0, [r], sig) for r in rets)
-            name = f.def_.split("::")[-1]
-            ctx.require(ok, "R13.6", "setter:" + name, "Config::%s replaces the value and then signals the change on every path" % name, f.loc(f.line),
-                        fail="Config::%s does not (always) call signal_change after replacing the value: workers never learn about the new setting" % name)
-    except Skip:
-        pass
